@@ -733,13 +733,18 @@ def decide(ctx, st, kind, text, real, drv, known, label):
                   % (kind, text, real, drv, ",".join(cls) or "G"))
 
 
+def harness_bin():
+    """the harness binary; C13_HARNESS_BIN lets a build against a scratch worktree (a proposed fix) be checked"""
+    return os.environ.get("C13_HARNESS_BIN") or C.bin_path("c13")
+
+
 def run_batch(ctx, st, kind, texts, known, label, moddir=None):
     if not texts:
         return
     inp = "\n".join(texts) + "\n"
     env = {"C13_MODDIR": moddir} if moddir else None
     hmode, dmode = ("prog", "prog") if kind == "prog" else ("unit", "match")
-    rrc, rout, rerr = C.run_bin([C.bin_path("c13"), hmode], inp, timeout=900, env=env)
+    rrc, rout, rerr = C.run_bin([harness_bin(), hmode], inp, timeout=900, env=env)
     drc, dout, derr = C.run_bin([C.driver_path("c13driver"), dmode], inp, timeout=900)
     rl, dl = rout.splitlines(), dout.splitlines()
     if len(rl) != len(texts) or len(dl) != len(texts):
@@ -823,7 +828,7 @@ def run(ctx):
     mod_results = []
     if mcases:
         inp = "\n".join(m for m, _ in mcases) + "\n"
-        rrc, rout, _ = C.run_bin([C.bin_path("c13"), "prog"], inp, timeout=300, env={"C13_MODDIR": moddir})
+        rrc, rout, _ = C.run_bin([harness_bin(), "prog"], inp, timeout=300, env={"C13_MODDIR": moddir})
         drc, dout, _ = C.run_bin([C.driver_path("c13driver"), "prog"], "\n".join(f for _, f in mcases) + "\n", timeout=300)
         for (m, f), r, d in zip(mcases, rout.splitlines(), dout.splitlines()):
             dd = parse_driver(d)
